@@ -1928,6 +1928,40 @@ def sc_reindex_like(P):
     return out
 
 
+def sc_get_axes(P):
+    """_get_axes(*arrays): per dimension the axis every array is broadcast onto - the first one, a placeholder (label None) giving way to any real axis, a single label to a
+    longer (or empty) axis - and the refusal of non-singleton axes whose labels differ"""
+    out = []
+
+    def arr(name, spec):
+        axes = [mk_axis(d, len(lab), list(lab)) if isinstance(lab, list) else mk_axis(d, lab[0], tok(lab[1])) for d, lab in spec]
+        return mk_array(P, name, None, None, axes=axes, values=mk_values('V_' + name, [a.attrs['size'] for a in axes]), overrides=std_overrides(P))
+
+    def case(label, *specs):
+        out.append((label, lambda: ([arr(chr(65 + i), sp) for i, sp in enumerate(specs)], {}, {'overrides': std_overrides(P), 'oracle': label_oracle})))
+    full, other = (3, 'L_x'), (3, 'L_x2')
+    case('same labels', [('x', full), ('y', (2, 'L_y'))], [('x', full), ('y', (2, 'L_y'))])
+    case('labels differ on a full axis', [('x', full)], [('x', other)])
+    case('labels differ on the second dimension', [('x', full), ('y', (2, 'L_y'))], [('x', full), ('y', (2, 'L_y2'))])
+    case('single label, then full axis', [('x', ['k'])], [('x', full)])
+    case('full axis, then single label', [('x', full)], [('x', ['k'])])
+    case('placeholder, then full axis', [('x', [None])], [('x', full)])
+    case('full axis, then placeholder', [('x', full)], [('x', [None])])
+    case('placeholder, then single label', [('x', [None])], [('x', ['k'])])
+    case('single label, then placeholder', [('x', ['k'])], [('x', [None])])
+    case('two different single labels', [('x', ['k'])], [('x', ['m'])])
+    case('single label, then empty axis', [('x', ['k'])], [('x', [])])
+    case('empty axis, then single label', [('x', [])], [('x', ['k'])])
+    case('placeholder, single label, full axis', [('x', [None])], [('x', ['k'])], [('x', full)])
+    case('full axis, placeholder, other full axis', [('x', full)], [('x', [None])], [('x', other)])
+    case('second array lacks a dimension', [('x', full), ('y', (2, 'L_y'))], [('y', (2, 'L_y'))])
+    case('first array lacks a dimension', [('y', (2, 'L_y'))], [('x', full), ('y', (2, 'L_y'))])
+    case('disjoint dimensions', [('x', full)], [('y', (2, 'L_y'))])
+    case('one array', [('x', full), ('y', (2, 'L_y'))])
+    case('0-d and 1-d', [], [('x', full)])
+    return out
+
+
 def sc_axes_from(P):
     """Axes.from_shape / from_arrays / from_dict called directly"""
     out = []
@@ -1960,6 +1994,7 @@ SCENARIOS = {
     'dimarray.core.align.align': ((), sc_align),         # the decision procedure of c06.rule_align (C04-R7, C06-R3, C12-R7, C13-R7)
     'dimarray.core.align._get_aligned_axes': (('C06', 'C12'), sc_aligned_axes),
     'dimarray.core.align.reindex_like': ((), sc_reindex_like),          # the decision procedure of C07-R4
+    'dimarray.core.align._get_axes': (('C10', 'C04', 'C12'), sc_get_axes),
     'dimarray.core.align.stack': (('C12', 'C05'), sc_stack),
     'dimarray.core.align.concatenate': (('C12',), sc_concatenate),
     'dimarray.core.reshape.transpose': (('C10', 'C04', 'C12'), sc_transpose),
